@@ -40,7 +40,8 @@ META = {
 LEVELS = [1, 3, 9]
 ROUTES = ["interp", "java"]
 TERMINATING = ("done", "halt", "uncaught")
-RUN_TIMEOUT = 40          # seconds per tool invocation (a normal one takes well under a second)
+RUN_TIMEOUT = 150         # wall-clock backstop per tool invocation (a normal one takes well under a second)
+CPU_LIMIT = 20            # processor seconds after which a compiler / interpreter run counts as not terminating
 
 
 def digest(text):
@@ -149,7 +150,8 @@ def campaign(chk, build, progs, name, workdir, stats, corrupt=None):
             for q in LEVELS:
                 jobs.append((p, route, q, ()))
     t0 = time.time()
-    results = progrun.run_many(build, jobs, workdir, timeout=RUN_TIMEOUT, timing=stats.setdefault("stage_wall", {}))
+    results = progrun.run_many(build, jobs, workdir, timeout=RUN_TIMEOUT, cpu_limit=CPU_LIMIT,
+                               timing=stats.setdefault("stage_wall", {}))
     stats["run_wall_s"] = round(stats.get("run_wall_s", 0) + time.time() - t0, 1)
     # ---- the trace ----
     events = []
